@@ -338,6 +338,9 @@ func c13Shape(sizes []int) string {
 // the same batch).
 func c13CheckBatch(r *c13Run, variant string, ref *c13Ref, env *c13Env, lo, hi int) (ok bool, interesting bool) {
 	batch := ref.entries[lo:hi]
+	if variant[0] == 'B' || variant[0] == 'X' {
+		c13CountDependentPairs(r, batch)
+	}
 	res, err, panicked := c13Apply(r, variant, env, batch)
 	if panicked {
 		return false, false
@@ -389,6 +392,43 @@ func c13CheckBatch(r *c13Run, variant string, ref *c13Ref, env *c13Env, lo, hi i
 		return false, false
 	}
 	return true, interesting
+}
+
+var (
+	c13PairMu    sync.Mutex
+	c13PairsIn   = map[string]int{}
+	c13TypesSeen = map[string]bool{}
+)
+
+// c13CountDependentPairs records, for evidence only, how often a command shares
+// its batch with an earlier command on the same entity (same channel, same uid
+// rows, or a hash-slot migration maintenance command of its hash slot).
+func c13CountDependentPairs(r *c13Run, batch []c13Entry) {
+	share := func(a, b c13Cmd) bool {
+		for _, x := range a.Ents {
+			if strings.HasPrefix(x, "hsmig:") && a.HashSlot == b.HashSlot {
+				return true
+			}
+			for _, y := range b.Ents {
+				if x == y || (strings.HasPrefix(x, "chan:") && strings.HasPrefix(y, "chanid:") && strings.Contains(x, "/"+y[len("chanid:"):]+"/")) {
+					return true
+				}
+			}
+		}
+		return false
+	}
+	c13PairMu.Lock()
+	defer c13PairMu.Unlock()
+	for j := range batch {
+		c13TypesSeen[batch[j].Cmd.Type] = true
+		for i := 0; i < j; i++ {
+			if share(batch[i].Cmd, batch[j].Cmd) || share(batch[j].Cmd, batch[i].Cmd) {
+				c13PairsIn[batch[j].Cmd.Type]++
+				r.Count("dependent_pair_in_one_batch."+batch[j].Cmd.Type, 1)
+				break
+			}
+		}
+	}
 }
 
 func c13CompareFinal(r *c13Run, variant string, ref *c13Ref, env *c13Env) {
@@ -474,6 +514,16 @@ func TestVerifC13(t *testing.T) {
 	close(next)
 	wg.Wait()
 	_ = sha256.Size
+	zero := []string{}
+	c13PairMu.Lock()
+	for typ := range c13TypesSeen {
+		if c13PairsIn[typ] == 0 {
+			zero = append(zero, typ)
+		}
+	}
+	c13PairMu.Unlock()
+	sort.Strings(zero)
+	r.Note("command_types_without_dependent_pair_in_one_batch", zero)
 	c13TimingMu.Lock()
 	r.Note("cost_accounting_wallclock", c13Timing)
 	c13TimingMu.Unlock()
